@@ -13,7 +13,6 @@ package otelcol
 import (
 	"runtime"
 	"testing"
-	"time"
 )
 
 func TestVerifC20ConcurrentShutdown(t *testing.T) {
@@ -58,11 +57,9 @@ func TestVerifC20ConcurrentShutdown(t *testing.T) {
 			}
 		}
 		if running {
-			select {
-			case <-w.runDone:
-			case <-time.After(v20Wait):
+			if !v20WaitDone(w.runDone, v20Wait) {
 				out.Linef("viol sig=C20/harness/race-run-did-not-return state=%s", w.col.GetState())
-			}
+		}
 		}
 		if p := w.panics.Load(); p > 0 {
 			out.Linef("viol sig=C20/shutdown/concurrent-call-panicked %d of %d concurrent Shutdown() calls panicked in the caller's goroutine (%s collector)", p, trials*callers, kind)
@@ -75,6 +72,7 @@ func TestVerifC20ConcurrentShutdown(t *testing.T) {
 		out.Linef("stat stress_calls %d", trials*callers)
 		out.Linef("stat stress_panics %d", w.panics.Load())
 		out.Linef("nt")
+		v20EmitRetries(out)
 		out.Linef("end")
 		out.Flush()
 	}
